@@ -844,6 +844,28 @@ fn main() {
                         }
                     }
                 }
+                // membership is equality: `a in [b]`, `a not in [b]`, `[b] is containing(pat=a)` and
+                // `Value::contains` answer `a == b`, whatever the encodings (seeded change C13-14
+                // gave integer needles a fast path that never matched a float element)
+                {
+                    let eq = want == Ordering::Equal;
+                    for (src, truth) in [
+                        ("{{ a in [b] }}", eq),
+                        ("{{ a not in [b] }}", !eq),
+                        ("{{ a in [0.5, b, \"x\"] }}", eq || matches!(cmp_exact(&num_of(a).unwrap(), &num_of(&V::F64(0.5)).unwrap()), Ordering::Equal)),
+                        ("{{ [b] is containing(pat=a) }}", eq),
+                    ] {
+                        let out = engine::render_str(&tera_inst, src, &ctx, false);
+                        if classify(&out) != Got::Bool(truth) {
+                            acc.violation(
+                                sig("membership"),
+                                format!("{src} with a={}, b={} gave {}, but a == b is {eq}", a.describe(), b.describe(), out.show()),
+                                || json!({"template": src, "a": a.describe(), "b": b.describe(), "exact_order": format!("{want:?}")}),
+                            );
+                        }
+                        acc.case(boundary, "membership");
+                    }
+                }
                 // API level
                 let (ta, tb) = (&tv[ia], &tv[ib]);
                 match engine::guarded(|| (ta == tb, ta.partial_cmp(tb), ta.cmp(tb))) {
